@@ -45,7 +45,9 @@ ALWAYS_SEARCH = True
 RULE = ('tables of 3-6 columns (search: 2-6) x 60-150 rows in the modes gauss (random correlation via Cholesky) / '
         'negmix (sign-flipped columns) / clayton (lower-tail chain) / gumbel (upper-tail chain) / indep / discrete '
         '(rounded: ties) / outlier (a nearly functional pair with 2-4% unrelated rows: h saturates, the 0/1 correction '
-        'fires; the first two tables of every run); each fitted as center, direct and regular vine with truncation t in 1..d; per fitted vine '
+        'fires; the first two tables of every run) / redundant (a nearly redundant pair, tau 0.85-0.97, Clayton-, Gumbel- '
+        'or Frank-like, 2-3 columns; tables 3-5 of every run and the first two of every search) / offset (1.7e12 + 6e4*U, '
+        '1e9 + N(0,1): magnitude >> spread); each fitted as center, direct and regular vine with truncation t in 1..d; per fitted vine '
         'one u in (0.02,0.98)^d, two np.empty sentinels, 2 seeded rows of _sample_row and one sample(3).  A case '
         'is distinct by (type, d, t, extracted structure, families) and non-trivial when d >= 3 and the fit '
         'returned; fits that raise are counted as refused.')
@@ -72,8 +74,10 @@ ASSUMPTIONS = ['the vine structure is data: extracted from the fitted object (C1
 
 FIT_TIMEOUT_S = 40
 TYPES = ('center', 'direct', 'regular')
-MODES = ('gauss', 'negmix', 'clayton', 'gumbel', 'indep', 'discrete', 'outlier')
-MODE_W = (5, 3, 3, 3, 1, 2, 3)
+MODES = ('gauss', 'negmix', 'clayton', 'gumbel', 'indep', 'discrete', 'outlier', 'redundant', 'offset')
+MODE_W = (5, 3, 3, 3, 1, 2, 3, 3, 1)
+CLS_UCLAMP = 'Tree.prepare_next_tree:U-is-not-the-clamped-h-function'
+CLS_QUANT = 'VineCopula.sample:marginal-quantile-inaccurate'
 CLS_URANGE = 'Tree.prepare_next_tree:U-outside-(0,1)'
 SENTINELS = (0.3125, 0.71875)
 CLS_UNWRITTEN = 'VineCopula.get_likelihood:reads-unwritten-cells'
@@ -138,6 +142,30 @@ def gen_table(rng, d, mode, n=None):
         Z[:, j] = rs.choice([-1.0, 1.0]) * Z[:, i] + rng.choice([0.005, 0.01, 0.02, 0.04]) * rs.randn(n)
         k = max(2, int(rng.uniform(0.02, 0.04) * n))
         Z[:k, j] = rs.randn(k)
+    elif mode == 'redundant':
+        # a nearly redundant pair, Kendall tau 0.85-0.97: Clayton-like (lower tail), Gumbel-like (mirrored) or
+        # Frank/Gauss-like; large theta => h saturates to exactly 0 / 1 on many rows
+        from scipy.stats import norm
+        kind = rng.choice(['clayton', 'clayton', 'gumbel', 'frank'])
+        tau = rng.uniform(0.85, 0.97)
+        i, j = rng.sample(range(d), 2)
+        if kind == 'frank':
+            rho = math.sin(math.pi * tau / 2)
+            Z[:, i] = rs.randn(n)
+            Z[:, j] = rho * Z[:, i] + math.sqrt(1 - rho * rho) * rs.randn(n)
+        else:
+            t = 2 * tau / (1 - tau)
+            a = rs.uniform(0.001, 0.999, n)
+            w = rs.uniform(0.001, 0.999, n)
+            b = ((w ** (-t / (1 + t)) - 1) * a ** (-t) + 1) ** (-1 / t)
+            if kind == 'gumbel':
+                a, b = 1 - a, 1 - b
+            Z[:, i] = norm.ppf(np.clip(a, 1e-6, 1 - 1e-6))
+            Z[:, j] = norm.ppf(np.clip(b, 1e-6, 1 - 1e-6))
+    elif mode == 'offset':
+        # magnitude huge compared with the spread (epoch milliseconds within a minute; 1e9 + N(0,1))
+        Z[:, 0] = 1.7e12 + 6e4 * (0.5 + 0.5 * np.tanh(Z[:, 0]))
+        Z[:, 1] = rng.choice([1e9, -1e9, 1e8]) + Z[:, 1]
     elif mode == 'discrete':
         Z = np.round(Z * rng.choice([2.0, 4.0])) + 1e-3 * rs.randn(n, d) * (rng.random() < 0.5)
     if d >= 3 and rng.random() < 0.7:
@@ -515,6 +543,82 @@ def oracle_inputs(vine):
     return bad
 
 
+def oracle_U(vine):
+    """edge.U against an independent recomputation: raw h-values of the edge copula at the inputs the edge was given
+    (first tree: columns L, R of u_matrix; above: the rows get_conditional_uni returns), clamped ROW BY ROW only where
+    the raw value is <= 0 or >= 1.  -> first problem (dict) or None"""
+    from copulas.multivariate.tree import Edge
+    from copulas.utils import EPSILON
+    eps = float(EPSILON)
+    for k, tr in enumerate(vine.trees):
+        for i, e in enumerate(tr.edges):
+            if k == 0:
+                l, r = vine.u_matrix[:, int(e.L)], vine.u_matrix[:, int(e.R)]
+            else:
+                l, r = Edge.get_conditional_uni(*e.parents)
+            l, r = np.asarray(l, dtype=float), np.asarray(r, dtype=float)
+            c = copula_of(e)
+            with np.errstate(all='ignore'):
+                raw = [np.asarray(c.partial_derivative(np.column_stack((l, r))), dtype=float),
+                       np.asarray(c.partial_derivative(np.column_stack((r, l))), dtype=float)]
+            U = np.asarray(e.U, dtype=float)
+            for s_ in (0, 1):
+                h = raw[s_]
+                want = np.where(h <= 0, eps, np.where(h >= 1, 1 - eps, h))
+                if U.shape != (2, len(h)):
+                    return {'tree': k + 1, 'edge': i, 'U.shape': U.shape}
+                neq = ~((U[s_] == want) | (np.isnan(U[s_]) & np.isnan(want)))
+                if bool(neq.any()):
+                    row = int(np.argmax(neq))
+                    return {'tree': k + 1, 'edge': (int(e.L), int(e.R), sorted(int(x) for x in e.D)), 'side': s_,
+                            'family': str(e.name), 'theta': float(np.ravel(e.theta)[0]), 'row': row,
+                            'raw h': float(h[row]), 'stored U': float(U[s_][row]), 'expected': float(want[row]),
+                            'rows differing': int(neq.sum()), 'rows clamped': int(np.sum((h <= 0) | (h >= 1)))}
+    return None
+
+
+def quantile_oracle(v, n, seed):
+    """deterministic: every value sample() stores in column j is ppfs[j](u) for the uniform u the vine fed to it
+    (recorded by wrapping vine.ppfs), so unis[j].cdf(x) must give u back (probability space, 1e-6), and the sampled
+    values of a continuous marginal are (nearly) all distinct.  -> problem (dict) or None"""
+    rec = []
+    orig = list(v.ppfs)
+
+    def mk(j, f):
+        def g(u):
+            x = f(u)
+            rec.append((j, float(np.ravel(u)[0]), float(np.ravel(x)[0])))
+            return x
+        return g
+    try:
+        v.ppfs = [mk(j, f) for j, f in enumerate(orig)]
+        v.set_random_state(seed)
+        with np.errstate(all='ignore'):
+            S = v.sample(n)
+    except ValueError as ex:
+        if 'different signs' in str(ex):
+            return None
+        return {'sample raised': f'{type(ex).__name__}: {str(ex)[:80]}'}
+    finally:
+        v.ppfs = orig
+        v.random_state = None
+    worst = None
+    for j, u, x in rec:
+        with np.errstate(all='ignore'):
+            back = float(np.ravel(v.unis[j].cumulative_distribution(np.array([x])))[0])
+        err = abs(back - u)
+        if not err <= 1e-6 and (worst is None or not err <= worst['|cdf(x) - u|']):
+            worst = {'column': j, 'u fed to ppf': u, 'x = ppf(u)': x, 'cdf(x)': back, '|cdf(x) - u|': err,
+                     'tolerance': 1e-6, 'values checked': len(rec)}
+    if worst:
+        return worst
+    for j in range(S.shape[1]):
+        nd = int(S.iloc[:, j].nunique())
+        if nd < 0.9 * n - 2:          # the clamp min(max(tmp, EPS), 0.99) merges ~1% of the draws
+            return {'column': j, 'distinct sampled values': nd, 'rows': n}
+    return None
+
+
 def oracle_lik(vine, u):
     """Σ log pdf with the arguments chosen BY VARIABLE (what the vine factorisation needs)."""
     slots = None
@@ -576,6 +680,8 @@ def run(ctx, lean):
         mode = rng.choices(MODES, MODE_W)[0]
         if it < 2:
             d, mode = rng.choice([3, 4]), 'outlier'
+        elif it < 5:
+            d, mode = rng.choice([2, 3, 3]), 'redundant'
         X = gen_table(rng, d, mode)
         for vt in TYPES:
             t = rng.choice([1, 2, d - 1, d - 1, d, rng.randint(1, d)])
@@ -842,6 +948,13 @@ def check_real(ctx, X, vt, t, counts, rng, deep):
                 ctx.fail_input('VineCopula.fit', inp, {'tree': k + 1, 'edge': i, 'min': float(np.nanmin(U)),
                                                        'max': float(np.nanmax(U)), 'nan': bool(np.isnan(U).any())},
                                'pseudo-observations strictly inside (0,1)', CLS_URANGE)
+    bad_u = oracle_U(v)
+    counts['edges U-checked'] += sum(len(tr.edges) for tr in v.trees)
+    if bad_u:
+        counts['failures'] += 1
+        ctx.fail_input('VineCopula.fit', inp, bad_u,
+                       'edge.U = (h(l|r), h(r|l)) of the edge copula at the edge inputs, replaced by EPS / 1-EPS only on '
+                       'rows where the raw value is <= 0 / >= 1', CLS_UCLAMP)
     wrong = oracle_inputs(v) if d >= 3 else []
     for cause in sorted({w['cause'] for w in wrong}, key=str):
         counts['failures'] += 1
@@ -881,6 +994,13 @@ def check_real(ctx, X, vt, t, counts, rng, deep):
         counts['failures'] += 1
         ctx.fail_input('VineCopula.sample', inp, prob, 'n rows, training columns in order, no NaN, reproducible',
                        'VineCopula.sample:' + prob.split(' ')[0])
+    if d == 2:
+        counts['quantile checks'] += 1
+        qp = quantile_oracle(v, 60 if not deep else 150, rng.getrandbits(31))
+        if qp:
+            counts['failures'] += 1
+            ctx.fail_input('VineCopula.sample', inp, qp, 'each sampled value is the fitted marginal quantile of the uniform '
+                           'the vine produced for it: cdf_j(x) = u within 1e-6; values distinct', CLS_QUANT)
     if deep and d == 2:
         two_column_stats(ctx, X, vt, t, v, counts, rng)
 
@@ -989,7 +1109,8 @@ def refit_oracle(ctx, A, tA, B, t, vt, counts, rng):
 
 def new_counts():
     return {'fits': 0, 'checked': 0, 'refused': 0, 'failures': 0, 'wrong-parent-U': 0, 'lik-nondeterministic': 0,
-            'lik-wrong-value': 0, 'lik-nan-agrees': 0, 'two-column stats': 0, 'refit histories': 0}
+            'lik-wrong-value': 0, 'lik-nan-agrees': 0, 'two-column stats': 0, 'refit histories': 0,
+            'edges U-checked': 0, 'quantile checks': 0}
 
 
 def search(ctx, deep):
@@ -999,6 +1120,12 @@ def search(ctx, deep):
     for it in range(n_tables):
         d = rng.choice([2, 2, 3, 4, 4, 5, 5, 6]) if deep else rng.choice([2, 3, 4, 5, 6])
         mode = rng.choices(MODES, MODE_W)[0]
+        if it < 2:
+            d, mode = (2, 3)[it], 'redundant'
+        elif it == 2:
+            d, mode = 2, 'offset'
+        elif it == 3:
+            d = 2
         X = gen_table(rng, d, mode)
         for vt in TYPES:
             ts = sorted({1, d - 1 if d > 2 else 1, d, rng.randint(1, d)}) if deep else [rng.choice([1, d - 1, d])]
